@@ -450,10 +450,523 @@ def correspondence(rng, tier):
     return [tree_cases(rng, tier), norm_cases(rng, tier), ufunc_cases(rng, tier)]
 
 
+# =====================================================================  probes
+# The property itself on the real objects: op.derivative(x) is a linear operator domain -> range whose
+# action on d is the limit of central differences, with h^2 decay.  No model involved.
+def _flat(el):
+    import odl
+    if isinstance(el, (int, float, complex, np.number)):
+        return np.array([el])
+    if isinstance(getattr(el, 'space', None), odl.ProductSpace):
+        return np.concatenate([_flat(e) for e in el])
+    return np.asarray(el).ravel()
+
+
+HS = (1e-2, 1e-3, 1e-4, 1e-5)
+
+
+def cd_check(op, x, d, rtol=1e-6):
+    """(ok, detail).  ok is None when the input must be discarded (derivative raises a documented
+    'not differentiable / not implemented' error, or non-finite values)."""
+    import odl
+    with np.errstate(all='ignore'):
+        try:
+            D = op.derivative(x)
+        except (NotImplementedError, ValueError) as e:       # OpNotImplementedError is a NotImplementedError
+            return None, 'raises %s' % type(e).__name__
+        if not isinstance(D, odl.Operator):
+            return False, 'derivative returned a %s, not an Operator' % type(D).__name__
+        if not D.is_linear:
+            return False, 'derivative not flagged linear'
+        if D.domain != op.domain:
+            return False, 'derivative domain %r != %r' % (D.domain, op.domain)
+        if D.range != op.range:
+            return False, 'derivative range %r != %r' % (D.range, op.range)
+        Dd = _flat(D(d))
+        fx = _flat(op(x))
+        qs, errs = [], []
+        for h in HS:
+            q = (_flat(op(x + h * d)) - _flat(op(x - h * d))) / (2 * h)
+            qs.append(q)
+            errs.append(float(np.max(np.abs(q - Dd))) if q.size else 0.0)
+        if not (np.all(np.isfinite(Dd)) and np.all(np.isfinite(fx)) and all(math.isfinite(e) for e in errs)):
+            return None, 'non-finite'
+        scale = max(1.0, float(np.max(np.abs(Dd))) if Dd.size else 0.0, float(np.max(np.abs(fx))) if fx.size else 0.0)
+        if scale > 1e6:
+            return None, 'huge'
+        # reliability of the oracle itself, independent of D: the quotients must have converged
+        est = float(np.max(np.abs(qs[-1] - qs[-2]))) if qs[-1].size else 0.0     # ~ truncation error at HS[-2]
+        if est > 1e-4 * scale:
+            return None, 'finite differences not converged at these steps (ill-conditioned point)'
+        floors = [1e-11 * scale / h for h in HS]
+        tol = rtol * scale + floors[-1] + est
+        close = errs[-1] <= tol
+        return bool(close), 'central-difference errors %s at h=%s, scale %.3g, tol %.2e' % (
+            ['%.2e' % e for e in errs], list(HS), scale, tol)
+
+
+SPACES = {
+    'rn2': "odl.rn(2)", 'rn3': "odl.rn(3)", 'rn3c': "odl.rn(3, weighting=2.0)",
+    'rn3w': "odl.rn(3, weighting=[1.0, 2.0, 0.5])", 'discr4': "odl.uniform_discr(0, 1, 4)",
+    'discr23': "odl.uniform_discr([0, 0], [1, 2], [2, 3])", 'discrb': "odl.uniform_discr(0, 1, 3, nodes_on_bdry=True)",
+}
+_SP = {}
+
+
+def space_of(key):
+    import odl
+    if key not in _SP:
+        _SP[key] = eval(SPACES[key], {'odl': odl})
+    return _SP[key]
+
+
+def _el(sp, vals_):
+    return sp.element(np.asarray(vals_, dtype=float).reshape(sp.shape))
+
+
+def build(r):
+    """recipe (nested tuples/lists of plain Python data) -> operator.  The first entry names the class."""
+    import odl
+    O = odl.operator.operator
+    D = odl.operator.default_ops
+    PS = odl.operator.pspace_ops
+    k = r[0]
+    if k == 'sum':
+        return O.OperatorSum(build(r[1]), build(r[2]))
+    if k == 'vecsum':
+        a = build(r[1])
+        return O.OperatorVectorSum(a, _el(a.range, r[2]))
+    if k == 'comp':
+        return O.OperatorComp(build(r[1]), build(r[2]))
+    if k == 'pprod':
+        return O.OperatorPointwiseProduct(build(r[1]), build(r[2]))
+    if k == 'lscal':
+        return O.OperatorLeftScalarMult(build(r[1]), r[2])
+    if k == 'rscal':
+        return O.OperatorRightScalarMult(build(r[1]), r[2])
+    if k == 'lvec':
+        a = build(r[1])
+        return O.OperatorLeftVectorMult(a, _el(a.range, r[2]))
+    if k == 'rvec':
+        a = build(r[1])
+        return O.OperatorRightVectorMult(a, _el(a.domain, r[2]))
+    if k == 'flvec':
+        return O.FunctionalLeftVectorMult(build(r[1]), _el(space_of(r[2]), r[3]))
+    if k == 'ovl':            # through the overloads: r[1] in '+', '*', '-', 'neg', 'pow', 'div', 'smul', 'muls', 'vmul', 'mulv'
+        how = r[1]
+        a = build(r[2])
+        if how == '+':
+            return a + build(r[3])
+        if how == '-':
+            return a - build(r[3])
+        if how == '*':
+            return a * build(r[3])
+        if how == 'neg':
+            return -a
+        if how == 'pow':
+            return a ** r[3]
+        if how == 'div':
+            return a / r[3]
+        if how == 'smul':
+            return r[3] * a
+        if how == 'muls':
+            return a * r[3]
+        if how == 'adds':
+            return a + r[3]
+        if how == 'vmul':
+            return _el(a.range, r[3]) * a
+        if how == 'mulv':
+            return a * _el(a.domain, r[3])
+        raise ValueError(how)
+    # block operators: product-space in between
+    if k == 'broadcast':
+        return PS.BroadcastOperator(*[build(c) for c in r[1]])
+    if k == 'reduction':
+        return PS.ReductionOperator(*[build(c) for c in r[1]])
+    if k == 'diagonal':
+        return PS.DiagonalOperator(*[build(c) for c in r[1]])
+    if k == 'pso':
+        return PS.ProductSpaceOperator([[None if c is None else build(c) for c in row] for row in r[1]])
+    if k == 'pwnorm':         # PointwiseNorm(X^k, p, w) o Broadcast(children)
+        ch = [build(c) for c in r[1]]
+        vf = odl.ProductSpace(ch[0].range, len(ch))
+        return O.OperatorComp(odl.PointwiseNorm(vf, exponent=r[2], weighting=r[3]), PS.BroadcastOperator(*ch))
+    if k == 'pwinner':
+        ch = [build(c) for c in r[1]]
+        vf = odl.ProductSpace(ch[0].range, len(ch))
+        w = vf.element([_el(ch[0].range, v) for v in r[2]])
+        return O.OperatorComp(odl.PointwiseInner(vf, w), PS.BroadcastOperator(*ch))
+    # leaves
+    sp = space_of(r[1])
+    if k == 'ident':
+        return D.IdentityOperator(sp)
+    if k == 'scale':
+        return D.ScalingOperator(sp, r[2])
+    if k == 'mul':
+        return D.MultiplyOperator(_el(sp, r[2]))
+    if k == 'const':
+        return D.ConstantOperator(_el(sp, r[2]))
+    if k == 'zero':
+        return D.ZeroOperator(sp)
+    if k == 'pow':
+        return D.PowerOperator(sp, r[2])
+    if k == 'uf':
+        return getattr(odl.ufunc_ops, r[2])(sp)
+    if k == 'cubic':
+        return user_ops()[0](sp)
+    if k == 'norm':           # vector * norm(x): rn -> rn
+        return O.FunctionalLeftVectorMult(D.NormOperator(sp), _el(sp, r[2]))
+    if k == 'dist':
+        return O.FunctionalLeftVectorMult(D.DistOperator(_el(sp, r[2])), _el(sp, r[3]))
+    if k == 'inner':
+        return O.FunctionalLeftVectorMult(D.InnerProductOperator(_el(sp, r[2])), _el(sp, r[3]))
+    if k == 'mat':
+        return odl.MatrixOperator(np.asarray(r[2], dtype=float), domain=sp, range=sp) if sp.ndim == 1 \
+            else D.ScalingOperator(sp, r[2][0][0])
+    if k == 'pd':
+        return odl.PartialDerivative(sp, 0, pad_mode='constant', pad_const=r[2])
+    raise ValueError('unknown recipe %r' % (k,))
+
+
+UF_SMOOTH = ['sin', 'cos', 'exp', 'sinh', 'cosh', 'square', 'negative', 'tan', 'log', 'sqrt', 'reciprocal',
+             'deg2rad', 'rad2deg']
+
+
+def rnd_vals(rng, n, lo=-2.0, hi=2.0, away=0.0):
+    out = []
+    for _ in range(n):
+        v = round(rng.uniform(lo, hi), 3)
+        if abs(v) < away:
+            v = away if v >= 0 else -away
+        out.append(v)
+    return out
+
+
+def gen_recipe(rng, skey, depth):
+    """random operator recipe  space -> same space"""
+    n = space_of(skey).size
+    if depth <= 0 or rng.random() < 0.15:
+        k = rng.choice(['ident', 'scale', 'mul', 'const', 'pow', 'uf', 'uf', 'uf', 'cubic', 'norm', 'dist', 'inner',
+                        'mat', 'pd', 'zero'])
+        if k in ('ident', 'zero', 'cubic'):
+            return (k, skey)
+        if k == 'scale':
+            return (k, skey, rng.choice([2.0, -1.5, 0.5, 3.0]))
+        if k in ('mul', 'const'):
+            return (k, skey, rnd_vals(rng, n))
+        if k == 'pow':
+            return (k, skey, rng.choice([2, 3, 1, 2, 0.5, 1.5, -1, -0.5]))
+        if k == 'uf':
+            return (k, skey, rng.choice(UF_SMOOTH))
+        if k == 'norm':
+            return (k, skey, rnd_vals(rng, n))
+        if k in ('dist', 'inner'):
+            return (k, skey, rnd_vals(rng, n), rnd_vals(rng, n))
+        if k == 'mat':
+            return (k, skey, [rnd_vals(rng, n) for _ in range(n)])
+        if not skey.startswith('discr'):
+            return ('ident', skey)
+        return ('pd', skey, rng.choice([1.0, -2.0, 0.5]))
+    d = depth - 1
+    k = rng.choice(['sum', 'vecsum', 'comp', 'comp', 'pprod', 'lscal', 'rscal', 'lvec', 'rvec', 'ovl', 'ovl',
+                    'pwnorm', 'redbroad', 'diag', 'pso', 'pwinner'])
+    sub = lambda: gen_recipe(rng, skey, d)
+    if k in ('sum', 'comp', 'pprod'):
+        return (k, sub(), sub())
+    if k in ('vecsum', 'lvec', 'rvec'):
+        return (k, sub(), rnd_vals(rng, n))
+    if k in ('lscal', 'rscal'):
+        return (k, sub(), rng.choice([2.0, -1.0, 0.5, -0.25, 1.5]))
+    if k == 'ovl':
+        how = rng.choice(['+', '-', '*', 'neg', 'pow', 'div', 'smul', 'muls', 'adds', 'vmul', 'mulv'])
+        if how in ('+', '-', '*'):
+            return (k, how, sub(), sub())
+        if how == 'neg':
+            return (k, how, sub())
+        if how == 'pow':
+            return (k, how, sub(), rng.choice([2, 3]))
+        if how in ('div', 'smul', 'muls', 'adds'):
+            return (k, how, sub(), rng.choice([2.0, -0.5, 4.0]))
+        return (k, how, sub(), rnd_vals(rng, n))
+    m = rng.choice([1, 2, 2, 3])
+    if k == 'pwnorm':
+        return (k, [sub() for _ in range(m)], rng.choice([1, 2, 2, 3, 1.5]),
+                rng.choice([None, 2.0, [rng.choice([0.5, 1.0, 3.0]) for _ in range(m)]]))
+    if k == 'pwinner':
+        return (k, [sub() for _ in range(m)], [rnd_vals(rng, n) for _ in range(m)])
+    if k == 'redbroad':
+        return ('comp', ('reduction', [sub() for _ in range(m)]), ('broadcast', [sub() for _ in range(m)]))
+    if k == 'diag':
+        return ('comp', ('reduction', [sub() for _ in range(m)]),
+                ('comp', ('diagonal', [sub() for _ in range(m)]), ('broadcast', [sub() for _ in range(m)])))
+    # 2 x 2 block operator with holes, between a broadcast and a reduction
+    rows = [[sub() if rng.random() < 0.7 else None for _ in range(2)] for _ in range(2)]
+    for i in range(2):
+        if rows[i][0] is None and rows[i][1] is None:
+            rows[i][i] = sub()
+    for j in range(2):
+        if rows[0][j] is None and rows[1][j] is None:
+            rows[j][j] = sub()
+    return ('comp', ('reduction', [sub(), sub()]), ('comp', ('pso', rows), ('broadcast', [sub(), sub()])))
+
+
+def classes_in(r, acc=None):
+    acc = set() if acc is None else acc
+    if isinstance(r, (tuple, list)) and r and isinstance(r[0], str):
+        acc.add(r[0] if r[0] != 'uf' else 'uf-' + r[2])
+        for c in r[1:]:
+            classes_in(c, acc)
+    elif isinstance(r, (tuple, list)):
+        for c in r:
+            classes_in(c, acc)
+    return acc
+
+
+REPLAY_HEAD = ("import sys, numpy as np\nsys.path.insert(0, %r)\nimport odl\n"
+               "from harness import c06 as H\n" % C.VERIF)
+
+
+def tree_probes(rng, tier):
+    out = []
+    n = 400 if tier == 'quick' else 3000
+    maxd = 3 if tier == 'quick' else 5
+    tries = 0
+    while len(out) < n and tries < 30 * n:
+        tries += 1
+        skey = rng.choice(sorted(SPACES))
+        sp = space_of(skey)
+        rec = gen_recipe(rng, skey, rng.randint(1, maxd))
+        xv = rnd_vals(rng, sp.size, 0.3, 1.8)
+        dv = rnd_vals(rng, sp.size)
+        try:
+            with np.errstate(all='ignore'):
+                op = build(rec)
+                ok, detail = cd_check(op, _el(sp, xv), _el(sp, dv))
+        except Exception as e:       # construction or evaluation failed: an error outcome of the property
+            ok, detail = False, 'raised %s: %s' % (type(e).__name__, str(e)[:200])
+        if ok is None:
+            continue
+        rp = (REPLAY_HEAD + "rec = %r\nop = H.build(rec); sp = H.space_of(%r)\n"
+              "ok, observed = H.cd_check(op, H._el(sp, %r), H._el(sp, %r))\nok = bool(ok)\n" % (rec, skey, xv, dv))
+        root = rec[0] if rec[0] != 'ovl' else 'ovl' + rec[1]
+        out.append(C.Probe(bool(ok), 'cd-tree-%s-%s' % (root, skey),
+                           'central differences vs derivative on a random tree (%s) over %s' %
+                           (','.join(sorted(classes_in(rec))), skey), rp, detail))
+    return out
+
+
+def _away(rng, lo, hi, away=0.3):
+    v = round(rng.uniform(lo, hi), 3)
+    if abs(v) < away:
+        v = away if v >= 0 else -away
+    return v
+
+
+def _rnd_el(rng, sp, pos=False):
+    """random element with entries in [-2, 2] (pos: [0.4, 1.8]), never closer than 0.3 to the kink at 0"""
+    import odl
+    if isinstance(sp, odl.ProductSpace):
+        return sp.element([_rnd_el(rng, s, pos) for s in sp])
+    lo, hi = (0.4, 1.8) if pos else (-2.0, 2.0)
+    if isinstance(sp, odl.set.sets.Field):
+        return _away(rng, lo, hi)
+    a = np.array([_away(rng, lo, hi) for _ in range(sp.size)]).reshape(sp.shape)
+    if sp.is_complex:
+        a = a + 1j * np.array([_away(rng, -2, 2) for _ in range(sp.size)]).reshape(sp.shape)
+    return sp.element(a)
+
+
+# class/option catalogue: (key, python expression building `op` from odl/np/S, needs positive point)
+CATALOGUE_SPACES = {
+    'rn3': "odl.rn(3)", 'rn3c': "odl.rn(3, weighting=2.0)", 'rn3w': "odl.rn(3, weighting=[1.0, 2.0, 3.0])",
+    'discr4': "odl.uniform_discr(0, 1, 4)", 'discr23': "odl.uniform_discr([0, 0], [1, 2], [2, 3])",
+    'discrb': "odl.uniform_discr(0, 1, 4, nodes_on_bdry=True)",
+    'cn2': "odl.cn(2)", 'cdiscr3': "odl.uniform_discr(0, 1, 3, dtype=complex)",
+    'rn3p1': "odl.rn(3, exponent=1)",
+}
+REAL_SP = ['rn3', 'rn3c', 'rn3w', 'discr4', 'discr23', 'discrb']
+
+
+def catalogue():
+    cat = []
+    for sk in REAL_SP + ['cn2', 'cdiscr3', 'rn3p1']:
+        sp = "SP[%r]" % sk
+        real = sk in REAL_SP or sk == 'rn3p1'
+        hilbert = sk != 'rn3p1'
+        if hilbert:
+            tag = sk if real else 'complex-space'
+            cat.append(('NormOperator-%s' % tag, "odl.operator.default_ops.NormOperator(%s)" % sp, False))
+            cat.append(('DistOperator-%s' % tag, "odl.operator.default_ops.DistOperator(H._rnd_el(rng, %s))" % sp, False))
+        else:
+            cat.append(('NormOperator-exponent-not-2', "odl.operator.default_ops.NormOperator(%s)" % sp, False))
+            cat.append(('DistOperator-exponent-not-2', "odl.operator.default_ops.DistOperator(H._rnd_el(rng, %s))" % sp, False))
+        cat.append(('ConstantOperator-%s' % sk, "odl.ConstantOperator(H._rnd_el(rng, %s))" % sp, False))
+        cat.append(('RealPart-%s' % sk, "odl.RealPart(%s)" % sp, False))
+        cat.append(('ImagPart-%s' % sk, "odl.ImagPart(%s)" % sp, False))
+        cat.append(('ComplexModulus-%s' % sk, "odl.ComplexModulus(%s)" % sp, False))
+        cat.append(('ComplexModulusSquared-%s' % sk, "odl.ComplexModulusSquared(%s)" % sp, False))
+        if real:
+            for p in (2, 3, 0.5, 1.5, -1, -0.5, 1):
+                cat.append(('PowerOperator-%s-%s' % (p, sk), "odl.PowerOperator(%s, %r)" % (sp, p), True))
+            for uf in ['sin', 'cos', 'tan', 'sqrt', 'square', 'log', 'exp', 'reciprocal', 'sinh', 'cosh', 'negative',
+                       'rad2deg', 'deg2rad']:
+                cat.append(('ufunc-%s-%s' % (uf, sk), "odl.ufunc_ops.%s(%s)" % (uf, sp), True))
+        if sk in ('rn3', 'discr4', 'discr23'):
+            for kk in (1, 2, 3):
+                for p in (None, 1, 1.5, 2, 3):
+                    for w in (None, 2.0, [1.0, 2.0, 0.5][:kk]):
+                        cat.append(('PointwiseNorm-k%d-p%s-w%s-%s' % (kk, p, 'none' if w is None else ('const' if np.isscalar(w) else 'array'), sk),
+                                    "odl.PointwiseNorm(odl.ProductSpace(%s, %d), exponent=%r, weighting=%r)" % (sp, kk, p, w), False))
+            for ex in (1, 2, 3):
+                cat.append(('PointwiseNorm-vfexponent%d-%s' % (ex, sk),
+                            "odl.PointwiseNorm(odl.ProductSpace(%s, 2, exponent=%d))" % (sp, ex), False))
+            cat.append(('PointwiseNorm-vfweighted-%s' % sk,
+                        "odl.PointwiseNorm(odl.ProductSpace(%s, 2, weighting=[2.0, 3.0]))" % sp, False))
+    # fields
+    for p in (2, 3, 0.5, -1):
+        cat.append(('PowerOperator-%s-field' % p, "odl.PowerOperator(odl.RealNumbers(), %r)" % p, True))
+    # block operators with nonlinear entries
+    X = "SP['rn3']"
+    sq, ex, sn = "odl.ufunc_ops.square(%s)" % X, "odl.ufunc_ops.exp(%s)" % X, "odl.ufunc_ops.sin(%s)" % X
+    M = "odl.MatrixOperator(np.array([[1.0, 2.0, -1.0], [0.5, 0.0, 3.0]]), domain=%s)" % X
+    cat += [
+        ('BroadcastOperator-mixed', "odl.BroadcastOperator(%s, %s, %s)" % (sq, ex, M), False),
+        ('BroadcastOperator-n', "odl.BroadcastOperator(%s, 2)" % sq, False),
+        ('ReductionOperator-mixed', "odl.ReductionOperator(%s, %s * %s, %s)" % (sq, ex, sn, sn), False),
+        ('ReductionOperator-n', "odl.ReductionOperator(%s, 3)" % sq, False),
+        ('DiagonalOperator-mixed', "odl.DiagonalOperator(%s, %s * %s, %s)" % (sq, M, ex, sn), False),
+        ('DiagonalOperator-n', "odl.DiagonalOperator(%s, 2)" % ex, False),
+        ('ProductSpaceOperator-holes', "odl.ProductSpaceOperator([[%s, None, %s], [None, %s, %s.adjoint * %s * %s]])" % (sq, sn, ex, M, M, sq), False),
+        ('ProductSpaceOperator-linear', "odl.ProductSpaceOperator([[%s, None], [None, %s]])" % (M, M), False),
+        ('ProductSpaceOperator-row', "odl.ProductSpaceOperator([[%s, %s]])" % (sq, ex), False),
+        ('ProductSpaceOperator-col', "odl.ProductSpaceOperator([[%s], [%s]])" % (sq, ex), False),
+        ('BroadcastOperator-nested', "odl.BroadcastOperator(odl.DiagonalOperator(%s, %s), odl.DiagonalOperator(%s, %s))" % (sq, ex, sn, sq), False),
+        ('ComponentProjection-of-broadcast', "odl.ComponentProjection(odl.ProductSpace(%s, 2), 0) * odl.BroadcastOperator(%s, %s)" % (X, sq, ex), False),
+    ]
+    # finite differences / resizing with a pad constant: affine, derivative = zero-padding version
+    D2 = "SP['discr23']"
+    cat += [
+        ('PartialDerivative-padconst', "odl.PartialDerivative(%s, 0, pad_mode='constant', pad_const=2.0)" % D2, False),
+        ('Gradient-padconst', "odl.Gradient(%s, pad_mode='constant', pad_const=1.5)" % D2, False),
+        ('Divergence-padconst', "odl.Divergence(range=%s, pad_mode='constant', pad_const=1.5)" % D2, False),
+        ('Laplacian-padconst', "odl.Laplacian(%s, pad_mode='constant', pad_const=1.5)" % D2, False),
+        ('ResizingOperator-padconst', "odl.ResizingOperator(SP['discr4'], ran_shp=(7,), pad_mode='constant', pad_const=2.0)", False),
+        ('ResizingOperator-order1', "odl.ResizingOperator(SP['discr4'], ran_shp=(7,), pad_mode='order1')", False),
+    ]
+    # complex spaces through the expression classes (derivative only real-linear)
+    C2 = "SP['cn2']"
+    cat += [
+        ('OperatorRightVectorMult-ComplexModulusSquared', "odl.operator.operator.OperatorRightVectorMult(odl.ComplexModulusSquared(%s), H._rnd_el(rng, %s))" % (C2, C2), False),
+        ('OperatorComp-ComplexModulusSquared-complex-scaling', "odl.operator.operator.OperatorComp(odl.ComplexModulusSquared(%s), odl.ScalingOperator(%s, 1 + 1j))" % (C2, C2), False),
+        ('OperatorLeftScalarMult-complex-square', "odl.operator.operator.OperatorLeftScalarMult(odl.ufunc_ops.square(%s), 1 + 2j)" % C2, False),
+        ('OperatorRightScalarMult-real-scalar-ComplexModulus', "odl.operator.operator.OperatorRightScalarMult(odl.ComplexModulus(%s), 2.0)" % C2, False),
+        ('OperatorRightScalarMult-complex-scalar-real-linear-derivative', "odl.operator.operator.OperatorRightScalarMult(odl.ComplexModulus(%s), 2.0 + 1j)" % C2, False),
+        ('OperatorRightScalarMult-complex-scalar-square', "odl.operator.operator.OperatorRightScalarMult(odl.ufunc_ops.square(%s), 2.0 + 1j)" % C2, False),
+    ]
+    # functionals: derivative(x) = <gradient(x), .>
+    for sk in ('rn3', 'rn3w', 'discr4', 'pspace'):
+        sp = "SP[%r]" % sk if sk != 'pspace' else "odl.ProductSpace(SP['discr4'], 2)"
+        g = "H._rnd_el(rng, %s)" % sp
+        F = [
+            ('L1Norm', "S.L1Norm(%s)" % sp), ('L2Norm', "S.L2Norm(%s)" % sp), ('L2NormSquared', "S.L2NormSquared(%s)" % sp),
+            ('ConstantFunctional', "S.ConstantFunctional(%s, 2.0)" % sp), ('ZeroFunctional', "S.ZeroFunctional(%s)" % sp),
+            ('KullbackLeibler-prior', "S.KullbackLeibler(%s, prior=H._rnd_el(rng, %s, True))" % (sp, sp)),
+            ('KullbackLeibler', "S.KullbackLeibler(%s)" % sp),
+            ('KullbackLeiblerCrossEntropy', "S.KullbackLeiblerCrossEntropy(%s, prior=H._rnd_el(rng, %s, True))" % (sp, sp)),
+            ('KullbackLeiblerCrossEntropy-conj', "S.KullbackLeiblerCrossEntropy(%s, prior=H._rnd_el(rng, %s, True)).convex_conj" % (sp, sp)),
+            ('QuadraticForm', "S.QuadraticForm(operator=odl.ScalingOperator(%s, 3.0), vector=%s, constant=1.0)" % (sp, g)),
+            ('QuadraticForm-noop', "S.QuadraticForm(vector=%s, constant=1.0)" % g),
+            ('Huber', "S.Huber(%s, 0.5)" % sp), ('L2NormSquared-conj', "S.L2NormSquared(%s).convex_conj" % sp),
+            ('IndicatorLpUnitBall-conj', "S.IndicatorLpUnitBall(%s, 2).convex_conj" % sp),
+            ('SeparableSum', "S.SeparableSum(S.L2NormSquared(%s), S.L1Norm(%s))" % (sp, sp)),
+            ('BregmanDistance', "S.BregmanDistance(S.L2NormSquared(%s), %s, %s)" % (sp, g, g)),
+            ('FunctionalSum', "S.L2NormSquared(%s) + S.L2Norm(%s)" % (sp, sp)),
+            ('FunctionalLeftScalarMult', "3.0 * S.L2Norm(%s)" % sp), ('FunctionalRightScalarMult', "S.L2Norm(%s) * 3.0" % sp),
+            ('FunctionalComp-linear', "S.L2NormSquared(%s) * odl.ScalingOperator(%s, 2.0)" % (sp, sp)),
+            ('FunctionalTranslation', "S.L2Norm(%s).translated(%s)" % (sp, g)),
+            ('FunctionalQuadraticPerturb', "S.FunctionalQuadraticPerturb(S.L2Norm(%s), 0.5, %s, 1.0)" % (sp, g)),
+            ('FunctionalProduct', "S.FunctionalProduct(S.L2NormSquared(%s), S.L2Norm(%s))" % (sp, sp)),
+            ('FunctionalQuotient', "S.FunctionalQuotient(S.L2NormSquared(%s), S.L2Norm(%s) + 1.0)" % (sp, sp)),
+            ('FunctionalRightVectorMult', "S.L2NormSquared(%s) * %s" % (sp, g)),
+            ('FunctionalScalarSum', "S.L2Norm(%s) + 2.0" % sp),
+            ('FunctionalLeftVectorMult', "odl.rn(2).element([1.0, 2.0]) * S.L2NormSquared(%s)" % sp),
+        ]
+        if sk != 'pspace':
+            F += [('FunctionalComp-nonlinear', "S.L2NormSquared(%s) * odl.ufunc_ops.exp(%s)" % (sp, sp)),
+                  ('FunctionalComp-matrix', "S.L2NormSquared(odl.rn(2)) * odl.MatrixOperator(np.array([[1.0, 2.0, -1.0], [0.5, 0.0, 3.0]]), domain=odl.rn(3))"
+                   if sk == 'rn3' else "S.L1Norm(%s) * odl.ufunc_ops.sin(%s)" % (sp, sp))]
+        else:
+            F += [('GroupL1Norm', "S.GroupL1Norm(%s)" % sp)]
+        for nm, exx in F:
+            cat.append(('Functional-%s-%s' % (nm, sk), exx, True))
+    cat += [
+        ('RosenbrockFunctional-rn', "S.RosenbrockFunctional(odl.rn(4), scale=2.0)", False),
+        ('RosenbrockFunctional-weighted-space', "S.RosenbrockFunctional(SP['rn3w'], scale=2.0)", False),
+        ('RosenbrockFunctional-weighted-space', "S.RosenbrockFunctional(SP['discr4'], scale=2.0)", False),
+        ('RosenbrockGradient', "S.RosenbrockFunctional(odl.rn(4), scale=3.0).gradient", False),
+        ('L2NormSquared-gradient', "S.L2NormSquared(SP['discr4']).gradient", False),
+        ('L1Norm-gradient', "S.L1Norm(SP['rn3']).gradient", False),
+        ('QuadraticForm-gradient', "S.QuadraticForm(operator=odl.MatrixOperator(np.array([[1.0, 2.0, 0.0], [0.5, 1.0, 3.0], [0.0, -1.0, 2.0]])), vector=SP['rn3'].element([1, 2, 3])).gradient", False),
+        ('FunctionalCompositionGradient-linear', "(S.L2NormSquared(odl.rn(2)) * odl.MatrixOperator(np.array([[1.0, 2.0, -1.0], [0.5, 0.0, 3.0]]))).gradient", False),
+        # functionals whose domain is the scalar field
+        ('Functional-on-field-derivative', "odl.ufunc_ops.sin()", True),
+        ('Functional-on-field-derivative', "odl.ufunc_ops.square()", True),
+        ('Functional-on-field-derivative', "odl.ufunc_ops.exp()", True),
+        ('Functional-on-field-derivative', "S.ScalingFunctional(odl.RealNumbers(), 3.0)", True),
+        ('Functional-on-field-derivative', "S.IdentityFunctional(odl.RealNumbers())", True),
+        ('Functional-on-field-derivative', "odl.ufunc_ops.negative()", True),
+    ]
+    return cat
+
+
+def catalogue_probes(rng, tier):
+    import odl
+    import odl.solvers as S
+    out = []
+    SP = {k: eval(v, {'odl': odl}) for k, v in CATALOGUE_SPACES.items()}
+    reps = 1 if tier == 'quick' else 4
+    import sys
+    Hmod = sys.modules[__name__]
+    for key, expr, pos in catalogue():
+        for rep in range(reps):
+            seed = rng.randrange(10 ** 9)
+            body = ("import random, odl.solvers as S\nrng = random.Random(%d)\n"
+                    "SP = {k: eval(v, {'odl': odl}) for k, v in H.CATALOGUE_SPACES.items()}\n"
+                    "try:\n    op = %s\n    x = H._rnd_el(rng, op.domain, %r); d = H._rnd_el(rng, op.domain)\n"
+                    "    ok, observed = H.cd_check(op, x, d)\n"
+                    "except Exception as e:\n    ok, observed = False, 'raised %%s: %%s' %% (type(e).__name__, str(e)[:200])\n"
+                    % (seed, expr, pos))
+            env = {'odl': odl, 'np': np, 'H': Hmod}
+            with np.errstate(all='ignore'):
+                exec(body, env)
+            ok = env['ok']
+            if ok is None:
+                # documented "not differentiable here / not implemented": acceptable outcome
+                out.append(C.Probe(True, key, '%s: %s' % (expr, env['observed']), None))
+                continue
+            out.append(C.Probe(bool(ok), key, 'central differences vs derivative: %s' % expr,
+                               REPLAY_HEAD + body + "ok = bool(ok)\n", env['observed']))
+    return out
+
+
 def probes(rng, tier):
-    return []
+    return tree_probes(rng, tier) + catalogue_probes(rng, tier)
 
 
-LEVEL_TEXT = ''
-LEVEL_NOTE = ''
-TECHNIQUE = ''
+LEVEL_TEXT = ('Proof: Coq theorem for EVERY expression tree (any depth) over OperatorSum/VectorSum/Comp/PointwiseProduct/'
+              'Left-/RightScalarMult/Left-/RightVectorMult/FunctionalLeftVectorMult and the leaves Scaling, Multiply, Matrix, '
+              'InnerProduct, Zero, Constant, Power (integer), every ufunc with a derivative, Norm, Dist and arbitrary '
+              'user-defined leaves: at every regular point where derivative(x) returns, the returned object evaluates '
+              'to the Frechet (Hadamard) derivative, is a bounded linear map domain -> range, is flagged linear and '
+              'well-typed; hence its action on d is the limit of central differences (proved as an epsilon-delta '
+              'statement). Flagged-linear trees are proved linear and their own derivative; affine ones have the '
+              'derivative of the linear part. Each entry of the ufunc derivative/gradient tables REGENERATED from '
+              'ufunc_ops.py is proved to be the derivative of its ufunc. The model is tied to the code by a '
+              'structural correspondence on random trees (whole derivative object compared).')
+LEVEL_NOTE = ('Validated, not proved: the O(h^2) rate (numerical probes); block operators on product spaces, '
+              'PointwiseNorm, ComplexModulus(Squared), functional gradients, non-integer powers, weighted/discretised '
+              'spaces (central-difference probes on the real objects). Exact arithmetic: rounding out of scope. '
+              'Seven recorded findings (findings/C06.json). Axioms: classical reals, funext, classic as printed.')
+TECHNIQUE = ('Coq proof by structural induction over a deep embedding of operator arithmetic, with a curve-based '
+             '(Hadamard) differentiability calculus on R^n built on the standard-library derivable_pt_lim; '
+             'source-regenerated ufunc tables; in-Coq structural differential correspondence; central-difference probes')
